@@ -73,6 +73,25 @@ class CThread(threading.Thread):
             cur.sem.acquire()
 
 
+class CLock:
+    """Replaces executor._lock (fixed discipline): acquiring it is a scheduling point; a paused thread
+    never holds it (no marked line lies inside a critical section)."""
+
+    def __init__(self, det):
+        self.det = det
+        self.lock = threading.Lock()
+
+    def __enter__(self):
+        if self.det.current() is not None:
+            self.det.pause(("lock", 0))
+        self.lock.acquire()
+        return self
+
+    def __exit__(self, *a):
+        self.lock.release()
+        return False
+
+
 class ThreadingShim:
     """Stands in for the `threading` module inside one executor module."""
 
@@ -238,7 +257,22 @@ def section(d):
     return cp["x"]
 
 
-TIME_SHIM = SimpleNamespace(sleep=lambda s: None, time=time.time)
+class SpinLimit(BaseException):
+    """A polling loop slept too often without any scheduling point (only possible when no lines are marked)."""
+
+
+class TimeShim:
+    def __init__(self, det=None, yield_on_sleep=False, limit=3000):
+        self.n, self.limit, self.det, self.yield_on_sleep = 0, limit, det, yield_on_sleep
+
+    def sleep(self, s):
+        self.n += 1
+        if self.n > self.limit:
+            raise SpinLimit()
+        if self.yield_on_sleep and self.det.current() is not None:
+            self.det.pause(("sleep", 0))     # fallback mode: polling loops yield where they sleep
+
+    time = staticmethod(time.time)
 
 
 class Adapter:
@@ -258,7 +292,7 @@ class Adapter:
             raise RuntimeError(f"{self.modname} imported from {have}, expected {want} (set PYTHONPATH)")
         lines = []
         for label, ls in info["lines"].items():
-            if label != "ret":
+            if label not in ("ret", "lock"):
                 lines += ls
         self.det = Det(self.mod.__file__, lines, info["lines"]["ret"])
         self.tmp = tempfile.mkdtemp(prefix="rv_c10_")
@@ -271,9 +305,11 @@ class Adapter:
 
     def open(self):
         self.patch(self.mod, "threading", ThreadingShim(self.det))
-        self.patch(self.mod, "time", TIME_SHIM)
+        self.patch(self.mod, "time", TimeShim(self.det, bool(self.info.get("fallback"))))
         self.patch(self.mod, "parse_job_result", lambda prefix, job, *a, **k: (job.n, True))
         self.build()
+        if self.info.get("locked"):
+            self.ex._lock = CLock(self.det)
         return self
 
     def close(self):
@@ -417,6 +453,7 @@ class Run:
     """One execution of the real executor under the deterministic scheduler."""
 
     def __init__(self, key, info, repo, njobs):
+        pause_between = bool(info.get("fallback"))
         self.key, self.njobs = key, njobs
         self.ad = ADAPTERS[key](info, repo).open()
         self.det = self.ad.det
@@ -425,6 +462,8 @@ class Run:
 
         def body():
             for j in self.jobs:
+                if pause_between:      # fallback mode (no marked lines): yield before every _submit
+                    self.det.pause(("submit", j.n))
                 self.ad.submit(j)
         th = CThread(self.det, body, fixed_name="S")
         th.start()
@@ -446,9 +485,9 @@ class Run:
         status = self.det.step(name)
         o = self.ad.observe()
         self.history.append((name, status, o))
-        rec = self.det.recs[name]
-        if rec.exc is not None:
-            raise RuntimeError(f"thread {name} raised {rec.exc!r}")
+        for n, rec in self.det.recs.items():
+            if rec.exc is not None:
+                raise RuntimeError(f"thread {n} raised {rec.exc!r}")
         return status, o
 
     def done(self):
